@@ -1,7 +1,7 @@
 """Which rules make up which property (DESIGN.md section 4)."""
 from __future__ import annotations
 
-from .loader import Program
+from .loader import AnalysisError, Program
 from .report import Run
 from .rules import api, cog, crsguard, generic2, valueobj
 
@@ -402,7 +402,10 @@ def _with_generic(pid, fn):
     def wrapped(prog: Program, run: Run, tier: str) -> None:
         fn(prog, run, tier)
         for _nm in ROUND4.get(pid, []):
-            run.add(getattr(round4, _nm)(prog), "round-4 clause: " + (getattr(round4, _nm).__doc__ or "").split(".")[0].strip() + " (structural part of a repaired defect; see rules/round4.py)")
+            try:
+                run.add(getattr(round4, _nm)(prog), "round-4 clause: " + (getattr(round4, _nm).__doc__ or "").split(".")[0].strip() + " (structural part of a repaired defect; see rules/round4.py)")
+            except AnalysisError as e:  # a vanished anchor fails this clause (exit 2), the remaining clauses still run
+                run.error(f"{_nm}: {e}")
         run.add(findings.declared(prog, pid), "R-DECLARED findings recorded with a failing input but without a structural clause: printed for the record, not decided")
         mods = {m for m in ANCHORED.get(pid, set()) if m in prog.modules}
         run.add(generic.rule_dup(prog, mods) + generic.rule_truthy(prog, mods) + generic.rule_abseps(prog, mods) + generic.rule_localmemo(prog, mods) + generic.rule_remainder_owner(prog, mods) + generic.rule_fallback(prog, mods) + generic.rule_isclose(prog, mods) + generic.rule_signed_magnitude(prog, mods) + generic.rule_zerodiv(prog, mods) + generic.rule_densify(prog, mods) + generic.rule_termination(prog, mods) + generic.rule_intidx(prog, mods) + generic.rule_assert_vs_annotation(prog, mods) + generic.rule_precision(prog, mods) + generic.rule_sharedmut(prog, mods) + generic.rule_itertwice(prog, mods)
